@@ -89,10 +89,10 @@ func checkSingleFlight(x *Exec, r *Rig, p concParams, recs [][]opRec, threadIDs 
 					explained = true
 					x.Count("joined-flights")
 				case !rc.res.OK && rc.res.Err == "notfound" && (lc.Err == "notfound" || lc.Err == "" && !supplied):
-					explained = true
+					explained = rc.res.Val == 0 // a not-found result carries no value
 					x.Count("joined-flights")
 				case !rc.res.OK && rc.res.Err == "loaderr" && lc.Err == "loaderr":
-					explained = true
+					explained = rc.res.Val == v // a failed load hands over the loader's own value (zero unless it returned one)
 					x.Count("joined-flights")
 				case !rc.res.OK && lc.Err == "panic":
 					explained = true
